@@ -27,7 +27,7 @@ BOUNDS = {
     'quick': 'd=2 (2 configurations binary, 3 unary): base subsets <=2 blades, every layout of one operand vs canonical other + diagonal, all operators; d=4 polynomial unary operators on a 24-subset menu; d=3 (2 configurations): '
              'unary operators on subsets <=2 blades, binary on an 8-subset menu',
     'thorough': 'd=2: full product L(x) x L(y); d=3 (pqr(3) + 4 mixed orderings): unary on subsets <=3 blades, binary on subsets <=2 blades (one-sided + diagonal); '
-                'd=4: grade-block bases with dense layouts',
+                'd=4: polynomial unary operators on a 24-subset menu with every padding (2 configurations)',
 }
 
 
@@ -58,9 +58,10 @@ def shards(tier, seed):
             if c in d3[::4]:
                 sh += mk('d=3: binary operators on subsets <=2 blades, one-sided + diagonal (4 configurations)', c, 'bin', ('S', 2), 37)
             sh += mk('float-valued operators (sqrt, norm, normalized, exp, **0.5) on Study numbers / simple elements', c, 'float', ('S', 2), 2)
+        # (dense layouts of small grade blocks in d=4 for all unary operators, and binary operators on dense d=4 layouts, were part
+        # of the first thorough tier; one shard of them runs for more than ten minutes, so they are not in the registered command)
         for c in [spaces.cfg_pqr(4, 0, 0), spaces.cfg_pqr(3, 0, 1)]:
-            sh += mk('d=4: unary operators on small grade blocks with dense layouts', c, 'un', ('Gsmall',), 8)
-            sh += mk('d=4: binary operators on blade pairs with dense layouts', c, 'bin', ('menu8',), 8)
+            sh += mk('d=4: polynomial unary operators on a 24-subset menu (<=2 blades, grade >= 1) with every padding', c, 'un', ('menu24',), 8, only_ops=POLY4)
     return sh
 
 
